@@ -1264,6 +1264,11 @@ class Evaluator(object):
         for n in names:
             if n and n in self.overrides:
                 return self.overrides[n](self, st, ctx)
+        ct = callee.get("ctor")
+        if ct is not None:
+            if ct["enum"]:
+                return EnumV(ct["variant"], {ct["variant"]: tuple(ctx.args)})
+            return ctx.args[0] if len(ctx.args) == 1 else Struct(ctx.args)
         h = self.P.lookup(self.prims, callee)
         if h is not None:
             return h(self, st, ctx)
